@@ -287,25 +287,84 @@ func c04Metadata(r *core.Run, idx int, rng *rand.Rand) {
 	}
 }
 
+// c04Rotation: on ONE provider, artefacts are issued, then storage switches to another response signing key,
+// then artefacts are issued again: each must verify under the certificate the IdP publishes at that moment.
+func c04Rotation(r *core.Run, idx int, rng *rand.Rand) {
+	const wl = "key_rotation_sequences"
+	e := env.Static(env.Opts{SigAlg: []string{spsim.AlgRSASHA1, spsim.AlgRSASHA256}[rng.Intn(2)]})
+	d := stdSP(0)
+	mustRegister(e.W, d, "appQ")
+	pairs := []string{"idp_resp", "sp2", "sp3", "idp_resp"}
+	for phase, name := range pairs {
+		kp := keys.Get(name)
+		e.W.RespKey = &key.CertificateAndKey{Certificate: kp.CertDER, Key: kp.RSA}
+		mv := fetchMeta(e, env.PathMetadata, "", nil)
+		class := fmt.Sprintf("rotation,phase=%d,key=%s", phase, name)
+		if mv.Err != "" || mv.Cert == nil {
+			r.Violate(core.Violation{Clause: "published_certificate", Class: class, Reason: "metadata unavailable after key change: " + mv.Err, Workload: wl, Index: idx})
+			return
+		}
+		for k := 0; k < 3; k++ {
+			sc := randScenario(rng, fmt.Sprintf("MK%dp%dk%dx", idx, phase, k), false)
+			sc.Host = ""
+			sc.S.Binding = []string{spsim.BindPost, spsim.BindPost, spsim.BindRedirect}[k]
+			if k == 1 {
+				sc.S.ACS = ""
+			}
+			sc.install(e.W)
+			call := sc.callback(e)
+			r.Eval(fmt.Sprintf("%s|%d|%d", class, idx, k))
+			r.Count("artefacts_after_key_changes", 1)
+			if call.Panic != "" || !call.D.Success() {
+				r.Violate(core.Violation{Clause: "no_success_after_key_change", Class: class, Reason: fmt.Sprintf("status %d %s", call.D.Status, call.Panic), Workload: wl, Index: idx, Observed: call.Describe()})
+				continue
+			}
+			fails, _, oerr := verifyEmitted(call.D, mv.Cert)
+			if oerr != nil {
+				r.Inconclusive("python oracle unavailable: " + oerr.Error())
+				return
+			}
+			for _, f := range fails {
+				r.Violate(core.Violation{Clause: "after_key_change/" + f.Clause, Class: class, Reason: "does not verify under the certificate published now (" + name + "): " + f.Reason, Workload: wl, Index: idx, Observed: call.Describe()})
+			}
+		}
+		// attribute query answer
+		u := randUser(rng, fmt.Sprintf("U_MK%dp%dx", idx, phase), false)
+		e.W.AddUser(u)
+		q := conformantQuery(rng, d, u.Username)
+		q.Destination = ""
+		qc := e.Do(env.Req{Method: "POST", Path: env.PathAttr, Body: q.XML(rng), CT: "text/xml"})
+		if qc.D.Success() {
+			fails, _, _ := verifyEmitted(qc.D, mv.Cert)
+			for _, f := range fails {
+				r.Violate(core.Violation{Clause: "after_key_change/query/" + f.Clause, Class: class, Reason: "attribute-query assertion does not verify under the certificate published now: " + f.Reason, Workload: wl, Index: idx, Observed: qc.Describe()})
+			}
+			r.Count("artefacts_after_key_changes", 1)
+		}
+	}
+}
+
 func init() {
 	register(&Prop{
 		ID: "C04", Level: "exploration", DeathIsViolation: true,
 		TimeoutQuick: 8 * time.Minute, TimeoutThorough: 40 * time.Minute,
 		Build: func(c *Ctx) []core.Workload {
 			r := c.Run
-			r.Rule = "signed artefacts are produced through the real handlers (login callback with POST / Redirect binding incl. empty consumer URL and consumer URLs with a query; attribute-query SOAP responses; signed metadata) with strings over all legal XML characters in every field that reaches signed content, for rsa-sha1 and rsa-sha256; each artefact is verified on its wire bytes by goxmldsig (V1) and by the python verifier (expat + own exclusive C14N + modpow, V2), redirect replies by the harness's HTTP-Redirect procedure on the raw query string; the certificate is the one the metadata KeyDescriptor and the certificate endpoint publish. Distinct = (artefact kind, binding, character class, algorithm, shape)."
+			r.Rule = "signed artefacts are produced through the real handlers (login callback with POST / Redirect binding incl. empty consumer URL and consumer URLs with a query; attribute-query SOAP responses; signed metadata) with strings over all legal XML characters in every field that reaches signed content, for rsa-sha1 and rsa-sha256; each artefact is verified on its wire bytes by goxmldsig (V1) and by the python verifier (expat + own exclusive C14N + modpow, V2), redirect replies by the harness's HTTP-Redirect procedure on the raw query string; the certificate is the one the metadata KeyDescriptor and the certificate endpoint publish; on long-lived providers the response signing key is switched several times and every artefact must verify under the certificate published at that moment. Distinct = (artefact kind, binding, character class, algorithm, shape)."
 			r.Assume("crypto/rsa, hashlib and expat are trusted; V1 and V2 are trusted jointly (a disagreement is reported)")
 			r.Require("verified_enveloped_assertion_signature", 100)
 			r.Require("verified_redirect_query_signature", 100)
 			r.Require("verified_query_enveloped_assertion_signature", 50)
 			r.Require("verified_metadata_signature", 50)
 			r.Require("signing_failure_cases", 30)
+			r.Require("artefacts_after_key_changes", 300)
 			r.Require("class_c14n_plain", 100)
 			r.Require("class_c14n_special", 50)
 			return []core.Workload{
 				{Name: "callback_signatures", N: c.Pick(500, 5000), Fn: c04Callback},
 				{Name: "attribute_query_signatures", N: c.Pick(150, 1500), Fn: c04Query},
 				{Name: "metadata_signatures", N: c.Pick(150, 1500), Fn: c04Metadata},
+				{Name: "key_rotation_sequences", N: c.Pick(40, 400), Fn: c04Rotation},
 			}
 		},
 		After: func(c *Ctx) { verify.Py.Close() },
